@@ -218,34 +218,39 @@ def recursion_shape(ctx, crate, fn, clause="ordered-emission"):
     ctx.functions.add(path)
     e = Engine(crate, opaque={PUSH}, max_depth=3, inline=lambda n, d: n not in (path,) and not n.startswith("sph_geom") and "center" not in n and "vertices" not in n)
     e.run(path)
-    selfcalls = sorted([ev for ev in e.events.values() if ev.callee == path and len(ev.site) == 2], key=lambda ev: ev.site[-1][1])
-    pushes = [ev for ev in e.events.values() if ev.callee == PUSH and len(ev.site) == 2]
+    # the recursion is cut at the first re-entry, so every recorded event belongs to ONE activation
+    # of the function, possibly inside private helpers analysed in place (extract-method refactors)
+    selfcalls = sorted([ev for ev in e.events.values() if ev.callee == path], key=lambda ev: (ev.site[:-1], ev.site[-1][1]))
+    pushes = [ev for ev in e.events.values() if ev.callee == PUSH]
     names = body.param_names()
     pd, ph = ('p', 'depth'), ('p', 'hash')
     ok = len(selfcalls) >= 4 and len(selfcalls) % 4 == 0
     detail = "%d self-calls" % len(selfcalls)
     if ok:
         di, hi = names.index("depth"), names.index("hash")
-        bbs = [ev.site[-1][1] for ev in selfcalls]
-        # chains under dominance: predecessor = nearest dominating self-call
-        def pred(b):
-            ds = [x for x in bbs if x != b and body.dominates(x, b)]
-            return max(ds, key=lambda x: len(body.dominators()[x])) if ds else None
-        heads = [b for b in bbs if pred(b) is None]
+        # group by the frame (function instance) the call sits in; chains under dominance inside it
+        frames = {}
+        for ev in selfcalls: frames.setdefault(ev.site[:-1], []).append(ev)
         groups = []
-        for h in heads:
-            chain = [h]
-            while True:
-                nxt = [b for b in bbs if pred(b) == chain[-1]]
-                if len(nxt) != 1: break
-                chain.append(nxt[0])
-            groups.append(chain)
+        for fr, evs_f in frames.items():
+            fbody = crate.body(evs_f[0].site[-1][0]) or body
+            bbs = [ev.site[-1][1] for ev in evs_f]
+            def pred(b, bbs=bbs, fbody=fbody):
+                ds = [x for x in bbs if x != b and fbody.dominates(x, b)]
+                return max(ds, key=lambda x: len(fbody.dominators()[x])) if ds else None
+            heads = [b for b in bbs if pred(b) is None]
+            for h in heads:
+                chain = [h]
+                while True:
+                    nxt = [b for b in bbs if pred(b) == chain[-1]]
+                    if len(nxt) != 1: break
+                    chain.append(nxt[0])
+                groups.append([[x for x in evs_f if x.site[-1][1] == b][0] for b in chain])
         allks = []
-        good = sum(len(g) for g in groups) == len(bbs) and all(len(g) == 4 for g in groups)
+        good = sum(len(g) for g in groups) == len(selfcalls) and all(len(g) == 4 for g in groups)
         for g in groups:
             ks = []
-            for b in g:
-                ev = [x for x in selfcalls if x.site[-1][1] == b][0]
+            for ev in g:
                 hb = Bits(crate, {ph: sym_bits('h', 64, 62)}, e.phi_ops)
                 v = hb.ev(ev.args[hi])
                 want = lambda k: const_bits(k, 2) + sym_bits('h', 64, 62)[:62]
@@ -261,13 +266,15 @@ def recursion_shape(ctx, crate, fn, clause="ordered-emission"):
     # no path does both push and recurse / two pushes: pushes and self-calls are in exclusive branches
     excl = True
     for p in pushes:
-        pb = p.site[-1][1]
+        pb = p.site[-1][1]; pbody = crate.body(p.site[-1][0]) or body
         for s in selfcalls:
+            if s.site[:-1] != p.site[:-1]: continue
             sb = s.site[-1][1]
-            if body.dominates(pb, sb) or body.dominates(sb, pb): excl = False
+            if pbody.dominates(pb, sb) or pbody.dominates(sb, pb): excl = False
         for q in pushes:
+            if q.site[:-1] != p.site[:-1]: continue
             qb = q.site[-1][1]
-            if qb != pb and (body.dominates(pb, qb) or body.dominates(qb, pb)): excl = False
+            if qb != pb and (pbody.dominates(pb, qb) or pbody.dominates(qb, pb)): excl = False
     ctx.report(clause, "%s:one-of-nothing/push/recurse" % fn, excl, "push sites and the recursive calls lie on mutually exclusive branches", at=body.span, kind="N")
 
 
